@@ -640,6 +640,8 @@ def select_ghost_of(ctx: Ctx, m: Arr):
 
 def setitem(ctx: Ctx, a: Arr, key, value):
     """In-place write a[key] = value (replaces a.fn)."""
+    if getattr(a, "symlist_elem", False):
+        raise PathAbort("in-place write into an element of a symbolic-length list (not modelled)", ctx.cur_line)
     if a.has_views or a.base is not None:
         # a write through / under a live view: the value model has no shared memory
         ctx.dropped.add("write to an array that has views: aliases not updated")
